@@ -41,6 +41,13 @@ class CustomBase(BaseException):
     pass
 
 
+class BadStrError(Exception):
+    """An application error whose text cannot be produced (__str__ raises): nobody needs its text to process it."""
+
+    def __str__(self) -> str:
+        raise TypeError("can only concatenate str (not \"NoneType\") to str")
+
+
 class FalsyError(Exception):
     """An exception that evaluates false (e.g. an error carrying an empty list of problems)."""
 
@@ -51,6 +58,24 @@ class FalsyError(Exception):
 class EmptyLenError(Exception):
     def __len__(self) -> int:
         return 0
+
+
+_REQ_KEYS = [0]
+
+
+def _next_req_key() -> str:
+    _REQ_KEYS[0] += 1
+    return f"key-{_REQ_KEYS[0]}"
+
+
+import pydantic as _pyd  # noqa: E402
+
+
+class _ReqModel(_pyd.BaseModel):
+    """A request model with a generated field: whoever builds it without `key` gets a fresh one."""
+
+    name: str = "n"
+    key: str = _pyd.Field(default_factory=_next_req_key)
 
 
 class _PlainCls:
@@ -86,6 +111,7 @@ EXC_POOL: Dict[str, Any] = {
     "OSError": OSError,
     "FalsyError": FalsyError,
     "EmptyLenError": EmptyLenError,
+    "BadStrError": BadStrError,
     # what Context.reject() raises: an ordinary failure for the result and for the retry middleware
     "TaskRejectedError": lambda tok, value: __import__("taskiq.exceptions", fromlist=["x"]).TaskRejectedError(),
 }
@@ -381,6 +407,7 @@ class RecordingBackend(AsyncResultBackend):  # type: ignore[type-arg]
         self.store[task_id] = result
         if self.stock is not None:
             await self.stock.set_result(task_id, result)  # the bundled in-memory backend sees every write
+            sc.stock_last = (task_id, result)  # type: ignore[attr-defined]
         sc.trace.add("set_exit", d)
 
     async def set_progress(self, task_id: str, progress: Any) -> None:
@@ -517,7 +544,7 @@ def build_functions(sc: Scenario, broker: AsyncBroker) -> None:
     ns: Dict[str, Any] = {
         "TaskiqDepends": TaskiqDepends, "Context": Context, "asyncio": asyncio,
         "contextlib": contextlib, "_sc": sc, "_echo": _echo, "OWNER": OWNER,
-        "DepBoom": DepBoom, "_dep_lat": _dep_lat, "_run_beh": _run_beh, "_PlainCls": _PlainCls,
+        "DepBoom": DepBoom, "_dep_lat": _dep_lat, "_run_beh": _run_beh, "_PlainCls": _PlainCls, "_ReqModel": _ReqModel,
         "ProgressTracker": ProgressTracker,
         "_run_beh_sync": _run_beh_sync,
     }
@@ -580,6 +607,8 @@ def build_functions(sc: Scenario, broker: AsyncBroker) -> None:
         params = ["tok"]
         if ts.get("plain_param"):
             params.append("obj: _PlainCls = None")
+        if ts.get("model_param"):
+            params.append("req: _ReqModel = None")
         strict = bool(ts.get("strict_sig"))  # no *args/**kwargs: a wrongly resolved call raises TypeError
         if not strict:
             params.append("*args")
@@ -596,7 +625,7 @@ def build_functions(sc: Scenario, broker: AsyncBroker) -> None:
         depvals = "{" + ", ".join(f"{s!r}: {s}" for s in ts.get("deps", [])) + "}"
         echo = "_echo(ctx)" if ts.get("ctx") else "None"
         fn = "fn_" + tname
-        a_kw = "(), {}" if strict else "args, kwargs"
+        a_kw = "(), {}" if strict else ("args, dict(kwargs, req=req)" if ts.get("model_param") else "args, kwargs")
         if ts.get("fn", "async") == "async":
             pt = "pt" if ts.get("progress") else "None"
             src = (
@@ -803,7 +832,7 @@ def build_payload(sc: Scenario, broker: AsyncBroker, m: Dict[str, Any], tok: str
 # run
 
 
-DEFAULT_TASKS = {"t_async": {"fn": "async"}, "t_sync": {"fn": "sync"},
+DEFAULT_TASKS = {"t_async": {"fn": "async"}, "t_sync": {"fn": "sync"}, "t_model": {"fn": "async", "model_param": True},
                  "t_plain": {"fn": "async", "plain_param": True}, "t_plain_sync": {"fn": "sync", "plain_param": True}}
 
 
@@ -889,8 +918,9 @@ def run_worker(spec: Dict[str, Any], real: bool = False) -> RunResult:
                     labels["timeout"] = str(m["timeout"]) if m.get("timeout_str") else m["timeout"]
                 sc.trace.add("send_begin", None, tok=tok)
                 try:
+                    extra = [object()] if m.get("bad_arg") else []
                     handle = await AsyncKicker(m.get("task", "t_async"), broker, labels).with_task_id(tok).kiq(
-                        tok, *m.get("args", []), **m.get("kwargs", {}))
+                        tok, *m.get("args", []), *extra, **m.get("kwargs", {}))
                     handles[tok] = handle
                     sc.trace.add("send_ok", None, tok=tok)
                 except BaseException as exc:  # noqa: BLE001
@@ -927,6 +957,18 @@ def run_worker(spec: Dict[str, Any], real: bool = False) -> RunResult:
                 for t in pending:
                     if t.done() and not t.cancelled():
                         t.exception()
+            # a second, idle InMemoryBroker of the same process must not see any of this broker's results
+            from taskiq import InMemoryBroker as _IMB
+
+            other = _IMB()
+            for tok_ in list(handles):
+                try:
+                    vis = await other.result_backend.is_result_ready(tok_)
+                except Exception:  # noqa: BLE001
+                    vis = False
+                if vis:
+                    sc.trace.add("foreign_result_visible", None, tok=tok_)
+            sc.trace.add("foreign_backend_checked", None, n=len(handles))
             rr.outcome = "returned" if not broker._running_tasks else "horizon"
             rr.R = loop.time() - T0
             sc.trace.add("listen_" + rr.outcome, err=None)
@@ -977,7 +1019,8 @@ def run_worker(spec: Dict[str, Any], real: bool = False) -> RunResult:
                     kk = AsyncKicker(s.get("task", "t_async"), broker, labels).with_task_id(tok)
                     if s.get("via_broker2") and broker2 is not None:
                         kk = kk.with_broker(broker2)  # the receiving broker's middlewares must run
-                    await kk.kiq(tok, *s.get("args", []), **s.get("kwargs", {}))
+                    extra = [object()] if s.get("bad_arg") else []  # an argument no serializer can encode
+                    await kk.kiq(tok, *s.get("args", []), *extra, **s.get("kwargs", {}))
                     sc.trace.add("send_ok", None, tok=tok)
                 except BaseException as exc:  # noqa: BLE001
                     from taskiq.exceptions import SendTaskError
